@@ -60,7 +60,8 @@ type EvalCtx struct {
 	depth int
 	// when evaluating at a return site
 	atReturn bool
-	loopPre  *State // pre-state of the innermost enclosing loop (for atentry())
+	loopPre  *State     // pre-state of the innermost enclosing loop (for atentry())
+	loopIdx  *ssa.Alloc // hidden index of the range loop whose invariant is being evaluated (loopindex)
 }
 
 func (e *Enc) evalCtx(fr *Frame, st *State) *EvalCtx {
@@ -259,6 +260,14 @@ func (c *EvalCtx) evalIdent(name string) (TV, error) {
 			}
 			return v, nil
 		}
+	}
+	if name == "loopindex" {
+		// the index of the range loop this invariant belongs to (independent of how many other
+		// range loops the function has and of the order go/ssa lays them out in)
+		if c.loopIdx == nil {
+			return TV{}, fmt.Errorf("loopindex: not in the invariant of a range loop over a slice")
+		}
+		return TV{Val: c.e.cellGet(c.st, c.loopIdx), Ty: types.Typ[types.Int]}, nil
 	}
 	// locals of the function under verification
 	if c.fr != nil {
